@@ -50,6 +50,8 @@ Start(e) ==
   /\ Ck("ThresholdAsConfigured", Eq(e.T, e.Tcfg))
   \* ... and so are the shut-off months of the documented schedule (0/0, 1/1, 2/1, 3/2, 12/6 or the whole horizon)
   /\ Ck("ShutoffAsConfigured", e.shutF = e.shutFcfg /\ e.shutB = e.shutBcfg)
+  \* ... and the yearly feed and biofuel demand the schedules are built from: the scenario's override, else the country table's
+  /\ Ck("DemandAsConfigured", Eq(e.feedYear, e.feedYearCfg) /\ Eq(e.bioYear, e.bioYearCfg))
   /\ Ck("DemandNonNeg", \A m \in 1..Len(e.demF) : NonNeg(e.demF[m]) /\ NonNeg(e.demB[m]))
   /\ Ck("DemandZeroAfterShutoff", /\ \A m \in 1..Len(e.demF) : m > e.shutF => Eq(e.demF[m], Zero)
                                   /\ \A m \in 1..Len(e.demB) : m > e.shutB => Eq(e.demB[m], Zero))
